@@ -255,6 +255,71 @@ func coqExpandCases(id int, observed [][2]int) string {
 	return coqList(items)
 }
 
+var (
+	trigExprs = []string{
+		"rate(errors_total[5m])", "sum(rate(http_requests_total[5m])) by (job) > 0.5", "rate(a_total[5m]) / rate(b_total[5m])",
+		"irate(errors_total[1m]) > 0", "sum(foo) without (instance) > 0", "count(up) by (job) == 0", "absent(up{job=\"x\"})",
+		"up", "foo{job=~\".*\"} > 1", "foo{job=~\"a\"} == 2", "sum(foo)", "foo / bar > 0.1", "vector(1)", "up == 0 or foo > 1",
+		"label_replace(up, \"dst\", \"x\", \"src\", \".*\") > 0", "topk(3, foo) > 1", "foo offset 5m > bar", "avg_over_time(foo[5m]) < 1",
+		"histogram_quantile(0.9, rate(x_bucket[5m])) > 1", "count_values(\"v\", foo) > 0",
+	}
+	trigTemplates = []string{
+		"{{ $value }} too high", "value is {{ $value | humanize }}", "{{ $labels.instance }} is down", "{{ $labels.job }} on {{ $labels.missing }}",
+		"{{ .Value }} of {{ .Labels.instance }}", "plain text", "{{ $value | humanizePercentage }}", "{{ printf \"%.2f\" $value }}",
+		"{{ with $value }}{{ . }}{{ end }}", "http://example.com/d/{{ $labels.job }}",
+	}
+)
+
+// checkTriggerFile: one group of valid alerting rules, every rule with its keys in a random order.
+func checkTriggerFile(r *rand.Rand) string {
+	var out []string
+	out = append(out, "groups:", "- name: triggers", "  rules:")
+	n := 1 + r.Intn(3)
+	for i := 0; i < n; i++ {
+		fields := [][]string{
+			{fmt.Sprintf("alert: Trigger%d", i)},
+			{"expr: " + yamlQuote(pick(r, trigExprs))},
+		}
+		if r.Intn(3) > 0 {
+			fields = append(fields, []string{"for: " + pick(r, []string{"5m", "0s", "1h"})})
+		}
+		if r.Intn(4) == 0 {
+			fields = append(fields, []string{"keep_firing_for: 10m"})
+		}
+		if r.Intn(3) > 0 {
+			f := []string{"labels:"}
+			for _, k := range []string{"severity", "team"}[:1+r.Intn(2)] {
+				f = append(f, "  "+k+": "+yamlQuote(pick(r, append([]string{"page", "warning"}, trigTemplates...))))
+			}
+			fields = append(fields, f)
+		}
+		if r.Intn(5) > 0 {
+			f := []string{"annotations:"}
+			for _, k := range []string{"summary", "description", "dashboard"}[:1+r.Intn(3)] {
+				f = append(f, "  "+k+": "+yamlQuote(pick(r, trigTemplates)))
+			}
+			fields = append(fields, f)
+		}
+		r.Shuffle(len(fields), func(a, b int) { fields[a], fields[b] = fields[b], fields[a] })
+		first := true
+		for _, f := range fields {
+			for _, l := range f {
+				if first {
+					out = append(out, "  - "+l)
+					first = false
+				} else {
+					out = append(out, "    "+l)
+				}
+			}
+		}
+	}
+	return strings.Join(out, "\n") + "\n"
+}
+
+func yamlQuote(v string) string {
+	return "'" + strings.ReplaceAll(v, "'", "''") + "'"
+}
+
 type c02Fail struct {
 	What    string `json:"what"`
 	Variant string `json:"variant"`
@@ -463,7 +528,13 @@ func runC02(args []string) int {
 	gv := newDocGen(r, 0)
 	gb := newDocGen(r, 0.3)
 	for len(items) < n {
-		switch r.Intn(8) {
+		switch r.Intn(10) {
+		case 8, 9:
+			// valid alerting rules whose keys are fully permuted (annotations / labels / for written above expr ...) with
+			// expressions and templates chosen to trigger the offline checks (alerts/template humanize, missing labels,
+			// alerts/comparison, promql/regexp, promql/fragile, rule/duplicate, alerts/annotation ...): every problem each
+			// check builds must have a valid line range whatever the order of the fields
+			items = append(items, item{checkTriggerFile(r), "check-triggers"})
 		case 7:
 			// alias-doubling chains of random depth, at top level or inside a literal block scalar: short ones are parsed,
 			// long ones (unfolding above 10^6 nodes, also far above: 60+ levels exceed 2^63) must be refused / not looked into
